@@ -1036,6 +1036,7 @@ func c11Check(res *Result, c *c11Case) {
 		return
 	}
 	// --- tables vs grammar
+	c11GrammarVsTables(res, c.lexed, modelAccept, c11Replay(c, nil), size)
 	if modelAccept && c.cert != "1" {
 		res.AddViolation(Violation{Key: "C11/tables-vs-grammar/trace-is-no-derivation", FoundInput: false, Size: size,
 			What:   fmt.Sprintf("the tables accept [%s] but the shift/reduce trace is not a derivation of shell.y", c11Names2(c.lexed)),
@@ -1301,6 +1302,9 @@ func c11TokenLists(ctx *Ctx, res *Result, rng *Rng, exhaustiveLen, nrand int) {
 				What: fmt.Sprintf("Parse on %q: real %d (%s), model %s", l, result, p2, f[1]), Replay: rep})
 			continue
 		}
+		if strings.HasPrefix(f[0], "L:") && (f[1] == "A" || strings.HasPrefix(f[1], "R")) {
+			c11GrammarVsTables(res, c11ParseCodes(f[0][2:]), f[1] == "A", map[string]any{"kind": "toks", "tokens": l}, len(l))
+		}
 		if f[1] == "A" {
 			res.Count("tokenlists_accepted", 1)
 			if f[2] != "1" {
@@ -1393,6 +1397,159 @@ func firstN(s string, n int) string {
 		return s[:n]
 	}
 	return s
+}
+
+// ---------- an independent recogniser for shell.y (Earley), fed with the generated production list ----------
+
+type c11Grammar struct {
+	start    int
+	lhs      []int
+	rhs      [][]int // terminals = the values Lex returns (> 50000), nonterminals = goyacc's numbers (< 1000)
+	byLhs    map[int][]int
+	nullable map[int]bool
+}
+
+func c11IsTerminal(sym int) bool { return sym >= 50000 }
+
+func c11LoadGrammar(ctx *Ctx) (*c11Grammar, error) {
+	ans, err := runOracle(ctx, "c11", []string{"grammar"})
+	if err != nil {
+		return nil, err
+	}
+	parts := strings.Split(ans[0], ";")
+	if len(parts) < 10 || !strings.HasPrefix(parts[0], "N") {
+		return nil, fmt.Errorf("oracle grammar answer %q", firstN(ans[0], 80))
+	}
+	sym := func(s string) (int, error) {
+		n, err := strconv.Atoi(s[1:])
+		if err != nil || s[0] != 'N' && s[0] != 'T' {
+			return 0, fmt.Errorf("symbol %q", s)
+		}
+		if (s[0] == 'T') != c11IsTerminal(n) {
+			return 0, fmt.Errorf("symbol %q breaks the terminal/nonterminal number ranges", s)
+		}
+		return n, nil
+	}
+	g := &c11Grammar{byLhs: map[int][]int{}, nullable: map[int]bool{}}
+	if g.start, err = sym(parts[0]); err != nil {
+		return nil, err
+	}
+	for _, p := range parts[1:] {
+		l, r, ok := strings.Cut(p, ":")
+		if !ok {
+			return nil, fmt.Errorf("production %q", p)
+		}
+		lhs, err := sym(l)
+		if err != nil {
+			return nil, err
+		}
+		var rhs []int
+		if r != "" {
+			for _, x := range strings.Split(r, ",") {
+				n, err := sym(x)
+				if err != nil {
+					return nil, err
+				}
+				rhs = append(rhs, n)
+			}
+		}
+		g.byLhs[lhs] = append(g.byLhs[lhs], len(g.lhs))
+		g.lhs = append(g.lhs, lhs)
+		g.rhs = append(g.rhs, rhs)
+	}
+	for changed := true; changed; {
+		changed = false
+		for i, rhs := range g.rhs {
+			if g.nullable[g.lhs[i]] {
+				continue
+			}
+			all := true
+			for _, x := range rhs {
+				if c11IsTerminal(x) || !g.nullable[x] {
+					all = false
+					break
+				}
+			}
+			if all {
+				g.nullable[g.lhs[i]] = true
+				changed = true
+			}
+		}
+	}
+	return g, nil
+}
+
+type c11Item struct{ prod, dot, origin int }
+
+// derives reports whether the start symbol derives the terminal string (Earley,
+// with the Aycock-Horspool treatment of nullable nonterminals).
+func (g *c11Grammar) derives(input []int) bool {
+	n := len(input)
+	sets := make([][]c11Item, n+1)
+	seen := make([]map[c11Item]bool, n+1)
+	for i := range seen {
+		seen[i] = map[c11Item]bool{}
+	}
+	add := func(i int, it c11Item) {
+		if !seen[i][it] {
+			seen[i][it] = true
+			sets[i] = append(sets[i], it)
+		}
+	}
+	for _, p := range g.byLhs[g.start] {
+		add(0, c11Item{p, 0, 0})
+	}
+	for i := 0; i <= n; i++ {
+		for k := 0; k < len(sets[i]); k++ {
+			it := sets[i][k]
+			rhs := g.rhs[it.prod]
+			if it.dot < len(rhs) {
+				x := rhs[it.dot]
+				if c11IsTerminal(x) {
+					if i < n && input[i] == x {
+						add(i+1, c11Item{it.prod, it.dot + 1, it.origin})
+					}
+					continue
+				}
+				for _, p := range g.byLhs[x] {
+					add(i, c11Item{p, 0, i})
+				}
+				if g.nullable[x] {
+					add(i, c11Item{it.prod, it.dot + 1, it.origin})
+				}
+				continue
+			}
+			lhs := g.lhs[it.prod]
+			for _, o := range sets[it.origin] {
+				r := g.rhs[o.prod]
+				if o.dot < len(r) && r[o.dot] == lhs {
+					add(i, c11Item{o.prod, o.dot + 1, o.origin})
+				}
+			}
+		}
+	}
+	for _, it := range sets[n] {
+		if it.origin == 0 && it.dot == len(g.rhs[it.prod]) && g.lhs[it.prod] == g.start {
+			return true
+		}
+	}
+	return false
+}
+
+var c11TheGrammar *c11Grammar
+
+// c11GrammarVsTables: the tables accept exactly what shell.y derives, on this terminal string
+func c11GrammarVsTables(res *Result, terminals []int, tablesAccept bool, rep map[string]any, size int) {
+	if c11TheGrammar == nil {
+		return
+	}
+	res.Count("earley_runs", 1)
+	if g := c11TheGrammar.derives(terminals); g != tablesAccept {
+		rep["broken"] = "the goyacc tables accept exactly the sentences of shell.y (Earley recogniser over the generated productions)"
+		res.AddViolation(Violation{Key: "C11/tables-vs-grammar/earley-disagrees", FoundInput: false, Size: size,
+			What:   fmt.Sprintf("on [%s]: shell.y derives it = %v, the tables accept it = %v", c11Names2(terminals), g, tablesAccept),
+			Replay: rep})
+	}
 }
 
 // ---------- corpus: the witnesses of Props/C11.v and the hand-reproduced findings ----------
@@ -1564,6 +1721,12 @@ func runC11(ctx *Ctx) *Result {
 		return res
 	}
 	c11Lap("goyacc")
+	if g, err := c11LoadGrammar(ctx); err != nil {
+		res.Broken = "grammar from the oracle: " + err.Error()
+		return res
+	} else {
+		c11TheGrammar = g
+	}
 
 	maxTok, nVariants, nRandom, randDepth, tokLen, tokRand, sampleBeyond := 6, 10000, 5000, 3, 3, 30000, 4000
 	if thorough {
@@ -1782,6 +1945,9 @@ func c11DiagKind(msg string) string {
 
 func replayC11(ctx *Ctx, rep map[string]any) *Result {
 	res := &Result{Rule: "replay"}
+	if g, err := c11LoadGrammar(ctx); err == nil {
+		c11TheGrammar = g
+	}
 	switch rep["kind"] {
 	case "goyacc":
 		c11Goyacc(ctx, res)
